@@ -169,7 +169,7 @@ func (j *jsonWriter) Enum(enumtag, tag int, value uint32) {
 		if strVal == "" {
 			return fmt.Appendf(b, "\"0x%08X\"", value)
 		}
-		return strconv.AppendQuote(b, strVal)
+		return appendJSONString(b, strVal)
 	})
 }
 
@@ -209,8 +209,33 @@ func (j *jsonWriter) Struct(tag int, f func(writer)) {
 // TextString implements writer.
 func (j *jsonWriter) TextString(tag int, str string) {
 	j.encodeAppend(TypeTextString, tag, func(b []byte) []byte {
-		return strconv.AppendQuote(b, str)
+		return appendJSONString(b, str)
 	})
+}
+
+// appendJSONString appends s as a JSON string literal. strconv.AppendQuote writes Go escapes
+// (\a, \x7f, \U0001f600) that are not valid JSON: only the quote, the backslash and the
+// control characters are escaped here, the latter in the \u00XX form.
+func appendJSONString(b []byte, s string) []byte {
+	const hex = "0123456789abcdef"
+	b = append(b, '"')
+	for i := 0; i < len(s); i++ {
+		switch c := s[i]; {
+		case c == '"' || c == '\\':
+			b = append(b, '\\', c)
+		case c == '\n':
+			b = append(b, '\\', 'n')
+		case c == '\r':
+			b = append(b, '\\', 'r')
+		case c == '\t':
+			b = append(b, '\\', 't')
+		case c < 0x20 || c == 0x7f:
+			b = append(b, '\\', 'u', '0', '0', hex[c>>4], hex[c&0xf])
+		default:
+			b = append(b, c)
+		}
+	}
+	return append(b, '"')
 }
 
 type jsonReader struct {
